@@ -242,6 +242,9 @@ func Load(repoDir string, cfg Config, cgKind string) (*Prog, error) {
 		sp := p.SSAPkg[pk.PkgPath]
 		for name, m := range sp.Members {
 			if fn, ok := m.(*ssa.Function); ok && ast.IsExported(name) && fn.Signature.Recv() == nil {
+				if strings.HasSuffix(fset.Position(fn.Pos()).Filename, "_test.go") {
+					continue // test functions are not API
+				}
 				p.Roots = append(p.Roots, fn)
 			}
 		}
